@@ -22,10 +22,12 @@ ASSUMPTIONS = ["migen tracer shim (names only; register names are given explicit
                "CSRStorage.re is the strobe of the write to the register's last address, one cycle later (docstring: 'after or during')"]
 FLOORS = {"quick": {"bus_writes_hit": 20000, "bus_reads_hit": 20000, "cycles_compared": 100000, "registers": 1000,
                     "atomic_commits": 300, "pulse_fields_seen": 200, "mem_accesses": 3000,
-                    "device_update_coinciding_with_bus_write": 800},
+                    "device_update_coinciding_with_bus_write": 800, "auto_placed_fields": 80,
+                    "overlapping_field_declarations_tried": 1000},
           "thorough": {"bus_writes_hit": 400000, "bus_reads_hit": 400000, "cycles_compared": 2000000, "registers": 25000,
                        "atomic_commits": 6000, "pulse_fields_seen": 4000, "mem_accesses": 60000,
-                       "device_update_coinciding_with_bus_write": 16000}}
+                       "device_update_coinciding_with_bus_write": 16000, "auto_placed_fields": 1600,
+                       "overlapping_field_declarations_tried": 20000}}
 SHARD_TIMEOUT = {"quick": 900, "thorough": 3000}
 N_SAMPLES = 3
 
@@ -44,13 +46,18 @@ def plan(tier, seed):
 def gen_fields(rng, maxbits, allow_pulse):
     fields, off = [], 0
     i = 0
+    gap = 0
     while off < maxbits and len(fields) < 5:
         size = rng.randint(1, min(6, maxbits - off))
         pulse = allow_pulse and size == 1 and rng.random() < 0.4
-        f = {"name": "f%d" % i, "size": size, "offset": off, "reset": 0 if pulse else rng.getrandbits(size), "pulse": pulse}
+        # "auto": the field is declared without an offset and must be placed right behind the previous one (only drawn when it
+        # follows its predecessor without a gap, so that the declared layout is the same either way)
+        f = {"name": "f%d" % i, "size": size, "offset": off, "reset": 0 if pulse else rng.getrandbits(size), "pulse": pulse,
+             "auto": gap == 0 and rng.random() < 0.5}
         fields.append(f)
         i += 1
-        off += size + rng.choice([0, 0, 1, 3])
+        gap = rng.choice([0, 0, 1, 3])
+        off += size + gap
     return fields
 
 
@@ -101,14 +108,14 @@ def build_periph(regs, mem_spec):
             o = CSR(r["size"], **kw)
         elif r["kind"] == "storage":
             if r.get("fields"):
-                o = CSRStorage(fields=[CSRField(f["name"], size=f["size"], offset=f["offset"], reset=f["reset"], pulse=f["pulse"])
+                o = CSRStorage(fields=[CSRField(f["name"], size=f["size"], offset=None if f.get("auto") else f["offset"], reset=f["reset"], pulse=f["pulse"])
                                        for f in r["fields"]], atomic_write=r["atomic"], write_from_dev=r["wfd"], **kw)
             else:
                 o = CSRStorage(r["size"], reset=r["reset"], atomic_write=r["atomic"], write_from_dev=r["wfd"], **kw)
         else:
             if r.get("fields"):
-                o = CSRStatus(fields=[CSRField(f["name"], size=f["size"], offset=f["offset"], reset=f["reset"]) for f in r["fields"]],
-                              read_only=not r["writable"], **kw)
+                o = CSRStatus(fields=[CSRField(f["name"], size=f["size"], offset=None if f.get("auto") else f["offset"], reset=f["reset"])
+                                      for f in r["fields"]], read_only=not r["writable"], **kw)
             else:
                 o = CSRStatus(r["size"], reset=r["reset"], read_only=not r["writable"], **kw)
         setattr(p, "_" + r["name"], o)
@@ -167,6 +174,23 @@ def bits(x, lo, n):
 
 
 # ------------------------------------------------------------------------------------ one case
+def overlapping_fields_rejected(rng):
+    """'fields sit at their declared offsets' includes that a declaration whose fields would share bits is refused: an explicitly
+    placed field (leaving a gap) followed by a field declared at an offset inside it, or inside an automatically placed one"""
+    a_off, a_size = rng.choice([1, 2, 4, 5]), rng.randint(2, 6)
+    b_size = rng.randint(1, 4)
+    variants = [[CSRField("a", size=a_size, offset=a_off), CSRField("b", size=b_size, offset=rng.randrange(a_off, a_off + a_size))],
+                [CSRField("a", size=a_size, offset=a_off), CSRField("m", size=3), CSRField("b", size=b_size, offset=a_off + a_size + rng.randrange(3))]]
+    out = []
+    for fields in variants:
+        try:
+            o = CSRStorage(fields=fields, name="ovl")
+            out.append({"fields": [(f.name, f.offset, f.size) for f in fields], "accepted_size": o.size})
+        except ValueError:
+            pass
+    return out
+
+
 def run_case(case):
     rng = rng_for(case["seed"])
     dw, ordering, paging = case["dw"], case["ordering"], case["paging"]
@@ -460,7 +484,8 @@ def run_case(case):
         for k, (r, i, lo, nb) in enumerate(bm.words):
             seen.setdefault(k, []).append(r["name"])
     nreg = sum(len([r for r in bm.regs if not r.get("reserved")]) for bm in bank_models.values())
-    return {"errs": errs[:3], "stats": tb.stats, "registers": nreg, "cycles": tb.c,
+    nauto = sum(1 for bm in bank_models.values() for r in bm.regs for f in (r.get("fields") or []) if f.get("auto"))
+    return {"errs": errs[:3], "stats": tb.stats, "registers": nreg, "cycles": tb.c, "auto_fields": nauto,
             "decl": [[{k: v for k, v in r.items() if not k.startswith("_") and k != "fields"} for r in bm.regs] for bm in bank_models.values()][:1],
             "mem": {k: v for k, v in (mem_spec or {}).items() if k != "init"}}
 
@@ -471,7 +496,15 @@ def run_shard(shard):
         r = col.guard(case, run_case, case)
         if r is None:
             continue
+        from lib.collect import rng_for as _rf
+        for k in range(4):
+            bad = col.guard(case, overlapping_fields_rejected, _rf(case["seed"], "overlap%d" % k))
+            col.ev("overlapping_field_declarations_tried", 2)
+            for b in bad or []:
+                col.violation("csr/fields/overlapping-declaration-accepted", case, "fields %s accepted (register size %d)" % (
+                    b["fields"], b["accepted_size"]), b)
         st = r["stats"]
+        col.ev("auto_placed_fields", r.get("auto_fields", 0))
         col.ev("bus_writes_hit", st["wh"])
         col.ev("device_update_coinciding_with_bus_write", st["wfd_coinc"])
         col.ev("bus_reads_hit", st["rh"])
